@@ -9,12 +9,58 @@
 use crate::corpus::Backend;
 use std::collections::{BTreeMap, BTreeSet};
 
+/// A top-level item of a backend's output. `owners`: the identifiers the item is *about* (the
+/// type an `impl` is for, the class a `class` statement defines, the `id` of a JSON declaration),
+/// when they can be told; they decide relatedness before mere mentions do.
+#[derive(Clone, Debug)]
+pub struct Item {
+    pub text: String,
+    pub owners: Option<Vec<String>>,
+}
+
 pub fn norm(s: &str) -> String {
     s.chars().filter(|c| *c != '_').flat_map(|c| c.to_lowercase()).collect()
 }
 
 /// Column-0 blank-line structure splitter for Python / C++ / JSON-free text.
-fn split_text(text: &str) -> Vec<String> {
+fn header_owners(item: &str) -> Option<Vec<String>> {
+    // first line that is not a decorator / comment / template line
+    let line = item.lines().find(|l| {
+        let t = l.trim_start();
+        !t.is_empty() && !t.starts_with('@') && !t.starts_with('#') && !t.starts_with("//") && !t.starts_with("template")
+    })?;
+    let mut toks: Vec<String> = Vec::new();
+    let mut cur = String::new();
+    for ch in line.chars() {
+        if ch.is_ascii_alphanumeric() || ch == '_' {
+            cur.push(ch);
+        } else {
+            if !cur.is_empty() {
+                toks.push(std::mem::take(&mut cur));
+            }
+            // stop at the start of a base-class list, parameter list or body
+            if ch == '(' || ch == ':' || ch == '{' || ch == '=' {
+                break;
+            }
+        }
+    }
+    if !cur.is_empty() {
+        toks.push(cur);
+    }
+    let kw = ["class", "struct", "enum", "def", "inline", "static", "constexpr", "public", "final", "bool", "std", "string", "using", "namespace", "typedef", "const", "void", "uint8_t", "uint16_t", "uint32_t", "uint64_t", "size_t", "int"];
+    let owners: Vec<String> = toks.into_iter().filter(|t| !kw.contains(&t.as_str()) && !t.chars().next().map(|c| c.is_ascii_digit()).unwrap_or(true)).collect();
+    if owners.is_empty() {
+        None
+    } else {
+        Some(owners)
+    }
+}
+
+fn split_text(text: &str) -> Vec<Item> {
+    split_text_raw(text).into_iter().map(|t| Item { owners: header_owners(&t), text: t }).collect()
+}
+
+fn split_text_raw(text: &str) -> Vec<String> {
     let mut items: Vec<String> = Vec::new();
     let mut cur = String::new();
     let mut prev_blank = true;
@@ -48,32 +94,81 @@ fn split_text(text: &str) -> Vec<String> {
     out
 }
 
-fn split_rust(text: &str) -> Option<Vec<String>> {
+fn type_idents(t: &syn::Type, out: &mut Vec<String>) {
+    match t {
+        syn::Type::Path(p) => {
+            for seg in &p.path.segments {
+                out.push(seg.ident.to_string());
+                if let syn::PathArguments::AngleBracketed(a) = &seg.arguments {
+                    for arg in &a.args {
+                        if let syn::GenericArgument::Type(t2) = arg {
+                            type_idents(t2, out);
+                        }
+                    }
+                }
+            }
+        }
+        syn::Type::Reference(r) => type_idents(&r.elem, out),
+        _ => {}
+    }
+}
+
+fn rust_owners(it: &syn::Item) -> Option<Vec<String>> {
+    let mut o = Vec::new();
+    match it {
+        syn::Item::Struct(s) => o.push(s.ident.to_string()),
+        syn::Item::Enum(e) => o.push(e.ident.to_string()),
+        syn::Item::Type(t) => o.push(t.ident.to_string()),
+        syn::Item::Impl(i) => {
+            type_idents(&i.self_ty, &mut o);
+            if let Some((_, path, _)) = &i.trait_ {
+                // `impl TryFrom<&A> for B`, `impl From<A> for u8`: the argument types are owners too
+                for seg in &path.segments {
+                    if let syn::PathArguments::AngleBracketed(a) = &seg.arguments {
+                        for arg in &a.args {
+                            if let syn::GenericArgument::Type(t2) = arg {
+                                type_idents(t2, &mut o);
+                            }
+                        }
+                    }
+                }
+            }
+        }
+        _ => return None,
+    }
+    if o.is_empty() {
+        None
+    } else {
+        Some(o)
+    }
+}
+
+fn split_rust(text: &str) -> Option<Vec<Item>> {
     use quote::ToTokens;
     let file = syn::parse_file(text).ok()?;
-    let mut v: Vec<String> = file.attrs.iter().map(|a| a.to_token_stream().to_string()).collect();
+    let mut v: Vec<Item> = file.attrs.iter().map(|a| Item { text: a.to_token_stream().to_string(), owners: None }).collect();
     for it in file.items {
-        v.push(it.to_token_stream().to_string());
+        v.push(Item { owners: rust_owners(&it), text: it.to_token_stream().to_string() });
     }
     Some(v)
 }
 
-fn split_json(text: &str) -> Option<Vec<String>> {
+fn split_json(text: &str) -> Option<Vec<Item>> {
     let v: serde_json::Value = serde_json::from_str(text).ok()?;
     let mut out = Vec::new();
     for (k, x) in v.as_object()? {
         if k == "declarations" {
             for d in x.as_array()? {
-                out.push(serde_json::to_string(d).ok()?);
+                out.push(Item { owners: d["id"].as_str().map(|i| vec![i.to_string()]), text: serde_json::to_string(d).ok()? });
             }
         } else {
-            out.push(format!("{}:{}", k, serde_json::to_string(x).ok()?));
+            out.push(Item { owners: None, text: format!("{}:{}", k, serde_json::to_string(x).ok()?) });
         }
     }
     Some(out)
 }
 
-pub fn split_items(backend: Backend, bytes: &[u8]) -> Option<Vec<String>> {
+pub fn split_items(backend: Backend, bytes: &[u8]) -> Option<Vec<Item>> {
     let text = std::str::from_utf8(bytes).ok()?;
     match backend {
         Backend::Rust => split_rust(text),
@@ -105,6 +200,41 @@ impl Relation {
             }
         }
         Relation { names, cache: std::collections::HashMap::new() }
+    }
+
+    /// Some(true/false): the token is attributed to a declaration inside/outside the families;
+    /// None: it contains no declaration name.
+    fn attribute(&self, tok: &str) -> Option<bool> {
+        let t = norm(tok);
+        let cands: Vec<&(String, bool)> = self.names.iter().filter(|(n, _)| t.contains(n.as_str())).collect();
+        if cands.is_empty() {
+            return None;
+        }
+        // ambiguity: one candidate looks like a name a generator derives from another candidate
+        // (`LinkChild` the packet vs. the child enum of `Link`): then any family member decides
+        const AFFIXES: [&str; 14] = ["child", "builder", "view", "data", "text", "packet", "parent", "payload", "tag", "type", "unknown", "isvalid", "is", "default"];
+        let ambiguous = cands.iter().any(|(a, _)| {
+            cands.iter().any(|(b, _)| b.len() > a.len() && AFFIXES.iter().any(|x| *b == format!("{a}{x}") || *b == format!("{x}{a}")))
+        });
+        if ambiguous {
+            return Some(cands.iter().any(|(_, f)| *f));
+        }
+        let best = cands.iter().map(|(n, _)| n.len()).max().unwrap_or(0);
+        Some(cands.iter().filter(|(n, _)| n.len() == best).any(|(_, f)| *f))
+    }
+
+    /// Relatedness of an item: if it has owners that belong to declarations, they decide — an item
+    /// about an unrelated declaration must not change even where it happens to mention a name that
+    /// looks like a family member's (`LinkChild` the child enum of `Link` vs. a packet `LinkChild`);
+    /// an item without attributable owner (preamble, helper, list) is skipped when it mentions one.
+    pub fn related_item(&mut self, item: &Item) -> bool {
+        if let Some(owners) = &item.owners {
+            let attr: Vec<bool> = owners.iter().filter_map(|o| self.attribute(o)).collect();
+            if !attr.is_empty() {
+                return attr.iter().any(|f| *f);
+            }
+        }
+        self.related(&item.text)
     }
 
     fn token_related(&mut self, tok: &str) -> bool {
@@ -159,21 +289,21 @@ pub struct ExclusionStats {
 /// Compare item multisets of `base` (options) and `excl` (options ∪ E).
 /// `family` = union of the inheritance families of E's members (raw declaration ids).
 pub fn exclusion_diff_items(
-    base_items: &[String],
-    excl_items: &[String],
+    base_items: &[Item],
+    excl_items: &[Item],
     all_decls: &[String],
     family: &BTreeSet<String>,
 ) -> (ExclusionStats, Option<String>) {
     let mut rel = Relation::new(all_decls, family);
     let mut stats = ExclusionStats::default();
-    let mut count = |items: &[String]| -> BTreeMap<String, i64> {
+    let mut count = |items: &[Item]| -> BTreeMap<String, i64> {
         let mut m = BTreeMap::new();
         for it in items {
-            if rel.related(it) {
+            if rel.related_item(it) {
                 stats.skipped_related += 1;
             } else {
                 stats.compared += 1;
-                *m.entry(it.clone()).or_insert(0) += 1;
+                *m.entry(it.text.clone()).or_insert(0) += 1;
             }
         }
         m
@@ -208,7 +338,8 @@ pub fn exclusion_diff_files(
     let mut stats = ExclusionStats::default();
     let related = |name: &str, content: &[u8]| -> bool {
         let mut r = rel.borrow_mut();
-        r.related(name) || r.related(&String::from_utf8_lossy(content))
+        let stem = name.rsplit('/').next().unwrap_or(name).trim_end_matches(".java").to_string();
+        r.related_item(&Item { text: String::from_utf8_lossy(content).into_owned(), owners: Some(vec![stem]) })
     };
     for (name, content) in base {
         if related(name, content) {
